@@ -1188,3 +1188,71 @@ func c03r6(rc *core.RC) {
 		rc.Unknown("vm/nil-exits", token.NoPos, "found %d nil exits to code.Next in the four interpreters", total)
 	}
 }
+
+// ---- C03.R7 the End link of a head opcode points at the last opcode of what it closes ----
+
+// A head opcode that finds nothing to write (nil pointer, nil map, empty struct) jumps to its End link, behind
+// everything that belongs to its value. Where the compiler (code.go) sets the link, the target is therefore the last
+// opcode of a list (Opcodes.Last()) or an end opcode made on the spot. A link to the first opcode of the last member
+// (fieldCodes.First()) makes the nil exit of an embedded pointer jump into the middle of that member: its value is
+// written without its key, from a slot nothing wrote in this run.
+func c03r7(rc *core.RC) {
+	p := rc.P
+	pk := p.Pkg("encoder")
+	if pk == nil {
+		rc.Unknown("encoder", token.NoPos, "package not found")
+		return
+	}
+	info := pk.TypesInfo
+	n := 0
+	for _, fd := range p.Funcs("encoder") {
+		if fd.Body == nil {
+			continue
+		}
+		name := p.FuncName(fd)
+		k := 0
+		ast.Inspect(fd.Body, func(m ast.Node) bool {
+			as, ok := m.(*ast.AssignStmt)
+			if !ok || len(as.Lhs) != len(as.Rhs) {
+				return true
+			}
+			for i, l := range as.Lhs {
+				f := core.FieldOf(info, l)
+				if f == nil || f.Name() != "End" || !strings.HasSuffix(f.Type().String(), "encoder.Opcode") {
+					continue
+				}
+				k++
+				n++
+				rc.Touch(name)
+				key := fmt.Sprintf("%s/End-link#%d last-or-fresh", name, k)
+				src := core.Unparen(core.ResolveSingleDef(info, fd.Body, as.Rhs[i]))
+				switch x := src.(type) {
+				case *ast.UnaryExpr:
+					if _, isLit := core.Unparen(x.X).(*ast.CompositeLit); isLit && x.Op == token.AND {
+						rc.OK(key, as.Pos(), "an end opcode made on the spot")
+						continue
+					}
+				case *ast.CallExpr:
+					callee := core.Callee(info, x)
+					cn := core.CalleeName(info, x)
+					switch {
+					case cn == "encoder.Opcodes.Last":
+						rc.OK(key, as.Pos(), "the last opcode of %s", core.Src(p.Fset, x.Fun.(*ast.SelectorExpr).X))
+						continue
+					case cn == "encoder.Opcodes.First":
+						rc.Bad(key, as.Pos(), "%s = %s: the End link is the first opcode of a list; the nil exit of the head jumps into the middle of the value it should skip (for an embedded nil pointer the last member's value is written without its key)", core.Src(p.Fset, l), core.Src(p.Fset, src))
+						continue
+					case callee != nil && callee.Type().(*types.Signature).Recv() == nil && callee.Pkg() == pk.Types:
+						rc.OK(key, as.Pos(), "the opcode %s returns", cn)
+						continue
+					}
+				}
+				rc.Unknown(key, as.Pos(), "%s = %s: the target is neither Opcodes.Last(), an opcode literal nor the result of an opcode constructor", core.Src(p.Fset, l), core.Src(p.Fset, src))
+			}
+			return true
+		})
+	}
+	if n < 10 {
+		rc.Unknown("encoder/End-links", token.NoPos, "found %d assignments to Opcode.End in the encoder package (confirmed: 13)", n)
+	}
+}
